@@ -12,7 +12,7 @@ WORK = os.path.join(os.environ.get("VERIF_BUILD") or os.path.join(os.path.dirnam
 _PROGS = {}
 _OWNER = os.getpid()
 # log lines of the extractor's registered functions that are host-call events (everything except create/clone/drop/eq bookkeeping)
-HOST_EVENT_PREFIXES = ("emit", "pure", "msub", "opt_of", "res_of")
+HOST_EVENT_PREFIXES = ("emit", "pure", "msub", "opt_of", "res_of", "after_unit", "around_unit")
 
 
 def _check(args):
